@@ -957,8 +957,8 @@ fn encode_template_to_native_script(
                     let n = if let serde_json::Value::Number(at_least) =
                         some.get("at_least").unwrap()
                     {
-                        if let Some(n) = at_least.as_u64() {
-                            n as u32
+                        if let Some(n) = at_least.as_u64().filter(|n| *n <= u32::MAX as u64).map(|n| n as u32) {
+                            n
                         } else {
                             return Err(JsError::from_str("at_least must be an integer"));
                         }
